@@ -9,7 +9,7 @@ EXPLANATION = (
     "elem.text goes through saxutils.escape/html.escape), ET.tostring is the only other producer serialize() uses. "
     "L-R3: Bool writes the inverse of its read mapping, Integer str() after enforce_length, DateTime/Time only "
     "format_datetime(<fixed format>) whose return has the shape strftime + '.' + 3 digits + '[offset]'. Z-R2: a "
-    "naive-value refusal on every write path. T-R3/T-R5: strings/enumerations re-checked on write, unregistered "
+    "naive-value refusal on every write path; Z-R3: the offset is written in the reader's notation (sign, split of the absolute offset, two-digit minutes). T-R4: the length guard measures the value itself (exhaustive guard table). T-R3/T-R5: strings/enumerations re-checked on write, unregistered "
     "types rejected. Not decided: the digits of particular values."
 )
 ASSUMPTIONS = ["ET.tostring escapes & < > in element text (trusted stdlib)"]
@@ -21,4 +21,6 @@ def run(project, rep):
     rep.run(L.l_r3_shapes, project, rep)
     rep.run(Z.z_r2_naive, project, rep)
     rep.run(T.t_r3, project, rep)
+    rep.run(T.t_r4, project, rep)
     rep.run(T.t_r5, project, rep)
+    rep.run(Z.z_r3_writer_shape, project, rep)
